@@ -911,11 +911,58 @@ class Gen(object):
             else:
                 imp = 'from  wide  import ' + ' , '.join(wanted) + '  # ' + wanted[-1]
             tops = [imp + '\n'] + early + tops + latecomers
+        ending = None
+        if r.random() < 0.4:
+            # the LAST statement of the file: a definition with a continued header and a one-line body, or an
+            # import / assignment; then the file ends in one of four ways
+            self.gid = getattr(self, 'gid', 0) + 1
+            k = self.gid
+            cont = lambda: r.choice([' ', '', '  ']) + '\\\n' + r.choice(['', '', ' ', '    ', '\t'])
+            nm = r.choice(DEF_NAMES) if r.random() < 0.5 else 'eo%d' % k
+            x = r.random()
+            body = r.choice(['pass', 'return 1', 'x = 1; return x'])
+            if x < 0.2:
+                last = 'def' + cont() + nm + self.osp() + '(' + self.params() + '):' + self.osp() + body
+                self.feat.add('eof-def-continued-header')
+            elif x < 0.35:
+                last = 'async' + r.choice([' ', cont()]) + 'def' + cont() + nm + '():' + self.osp() + body
+                self.feat.add('eof-async-def-continued-header')
+            elif x < 0.5:
+                cn = r.choice(CLASS_NAMES) if r.random() < 0.5 else 'Eo%d' % k
+                last = 'class' + cont() + cn + r.choice(['', '()', '(object)', ' (Base0)']) + self.osp() + ':' + self.osp() + r.choice(['pass', 'x = 1'])
+                self.feat.add('eof-class-continued-header')
+            elif x < 0.62:
+                last = 'def outer_eo%d():\n' % k + self.unit() + r.choice(['def', 'async def']) + cont() + nm + '(a=1):' + self.osp() + body
+                self.feat.add('eof-nested-def-continued-header')
+            elif x < 0.74:
+                last = 'class Eo%d%s:\n' % (k, r.choice(['', '(object)'])) + self.unit() + 'def' + cont() + nm + '(self):' + self.osp() + body
+                self.feat.add('eof-method-continued-header')
+            elif x < 0.87:
+                last = self.import_stmt() if r.random() < 0.5 else self.from_stmt()
+                self.feat.add('eof-import')
+            else:
+                last = self.assign()
+                self.feat.add('eof-assignment')
+            y = r.random()
+            if y < 0.4:
+                ending = 'no-final-newline'
+                tail = ''
+            elif y < 0.65:
+                ending = 'one-final-newline'
+                tail = '\n'
+            elif y < 0.82:
+                ending = 'extra-empty-line-at-end'
+                tail = '\n' + r.choice(['\n', '    \n', '\n\n'])
+            else:
+                ending = 'comment-line-at-end'
+                tail = '\n' + self.comment([nm]) + r.choice(['\n', ''])
+            self.feat.add(ending)
+            tops.append(last + tail)
         text = ''.join(tops)
         if r.random() < 0.05:
             self.feat.add('crlf')
             text = text.replace('\n', '\r\n')
-        if r.random() < 0.1:
+        if ending is None and r.random() < 0.1:
             self.feat.add('no-final-newline')
             text = text.rstrip('\r\n')
         return text
